@@ -23,8 +23,6 @@ import (
 	"go.sia.tech/core/types"
 )
 
-var indirMu sync.Mutex
-
 // input is everything a consensus entry point is given.
 type input struct {
 	S    consensus.State
@@ -63,14 +61,13 @@ type callInfo struct {
 }
 
 type caseInfo struct {
-	n       int
-	g       int
-	params  any
-	beh     any // abstract steps up to and including this block
-	shape   string
-	expect  string // verdict the Ledger specification gives the block
-	v1, v2  int    // transactions
-	samekey map[string]bool
+	n      int
+	g      int
+	params any
+	beh    any // abstract steps up to and including this block
+	shape  string
+	expect string // verdict the Ledger specification gives the block
+	v1, v2 int    // transactions
 }
 
 type recorder struct {
